@@ -188,6 +188,10 @@ func (db *DB) FindInBatches(dest interface{}, batchSize int, fc func(tx *DB, bat
 		if limit, ok := c.Expression.(clause.Limit); ok {
 			if limit.Limit != nil {
 				totalSize = *limit.Limit
+				if totalSize == 0 {
+					// LIMIT 0 selects no rows, as it does for Find
+					return tx
+				}
 			}
 
 			if totalSize > 0 && batchSize > totalSize {
